@@ -2,6 +2,7 @@
 import Driver.Loop
 import NumqiModel.SeedFlow
 import NumqiModel.Generated.SeedPrograms
+import NumqiModel.RandNorm
 
 namespace Numqi.Driver.C10
 open Numqi Numqi.SeedFlow
@@ -36,8 +37,125 @@ def tclosed (i : Nat) : Bool := (reach progs.length [i]).all fun j => seedClosed
 
 def listStr (l : List Nat) : String := ",".intercalate (l.map toString)
 
+/-! ### validity ops: complex binary64 values cross the protocol as `rebits:imbits` -/
+open Numqi.RandNorm
+
+def parseC? (s : String) : Option CFl :=
+  match s.splitOn ":" with
+  | [a, b] => do
+    let x ← a.toNat?; let y ← b.toNat?
+    pure ⟨Float.ofBits x.toUInt64, Float.ofBits y.toUInt64⟩
+  | _ => none
+
+def parseCArr? (s : String) : Option (Array CFl) :=
+  if s = "-" then some #[] else ((s.splitOn ",").mapM parseC?).map List.toArray
+
+def cStr (z : CFl) : String := s!"{z.re.toBits.toNat}:{z.im.toBits.toNat}"
+
+def vec (a : Array CFl) : Nat → CFl := fun i => a.getD i 0
+def mat (a : Array CFl) (cols : Nat) : Nat → Nat → CFl := fun i j => a.getD (i * cols + j) 0
+def ten (a : Array CFl) (d1 d2 : Nat) : Nat → Nat → Nat → CFl := fun s i j => a.getD ((s * d1 + i) * d2 + j) 0
+
+def outVec (n : Nat) (f : Nat → CFl) : String := ",".intercalate ((List.range n).map fun i => cStr (f i))
+def outMat (m n : Nat) (f : Nat → Nat → CFl) : String :=
+  ",".intercalate ((List.range m).flatMap fun i => (List.range n).map fun j => cStr (f i j))
+
+/-- materialise a matrix function (each entry evaluated once) -/
+def memo (m n : Nat) (f : Nat → Nat → CFl) : Nat → Nat → CFl :=
+  let a := Array.ofFn (n := m * n) fun k => f (k.val / n) (k.val % n)
+  fun i j => a.getD (i * n + j) 0
+
+def handleNz (args : List String) : String :=
+  match args with
+  | ["vec", n, d] => Id.run do
+      let some n := n.toNat? | return "bad-op"
+      let some a := parseCArr? d | return "bad-op"
+      if a.size ≠ n then return "bad-op"
+      return outVec n (normalize n (vec a))
+  | ["ball", n, d, u] => Id.run do
+      let some n := n.toNat? | return "bad-op"
+      let some a := parseCArr? d | return "bad-op"
+      let some u := parseC? u | return "bad-op"
+      if a.size ≠ n then return "bad-op"
+      return outVec n (ballPoint n (vec a) u)
+  | ["signfix", n, q, r] => Id.run do
+      let some n := n.toNat? | return "bad-op"
+      let some q := parseCArr? q | return "bad-op"
+      let some r := parseCArr? r | return "bad-op"
+      if q.size ≠ n * n || r.size ≠ n then return "bad-op"
+      return outMat n n (signFix (mat q n) (vec r))
+  | ["dm", n, k, g] => Id.run do
+      let some n := n.toNat? | return "bad-op"
+      let some k := k.toNat? | return "bad-op"
+      let some g := parseCArr? g | return "bad-op"
+      if g.size ≠ n * k then return "bad-op"
+      return outMat n n (densityMatrix n k (mat g k))
+  | ["dmb", n, k, u, g] => Id.run do
+      let some n := n.toNat? | return "bad-op"
+      let some k := k.toNat? | return "bad-op"
+      let some u := parseCArr? u | return "bad-op"
+      let some g := parseCArr? g | return "bad-op"
+      if g.size ≠ n * k || u.size ≠ n * n then return "bad-op"
+      let P := memo n k (buresPre n (mat u n) (mat g k))
+      return outMat n n (densityMatrix n k P)
+  | ["povm", n, m, b, evl, evc] => Id.run do
+      let some n := n.toNat? | return "bad-op"
+      let some m := m.toNat? | return "bad-op"
+      let some b := parseCArr? b | return "bad-op"
+      let some evl := parseCArr? evl | return "bad-op"
+      let some evc := parseCArr? evc | return "bad-op"
+      if b.size ≠ m * n * n || evl.size ≠ n || evc.size ≠ n * n then return "bad-op"
+      return ",".intercalate ((List.range m).map fun s => outMat n n (povm n (ten b n n) (mat evc n) (vec evl) s))
+  | ["povmsum", n, m, b] => Id.run do
+      let some n := n.toNat? | return "bad-op"
+      let some m := m.toNat? | return "bad-op"
+      let some b := parseCArr? b | return "bad-op"
+      if b.size ≠ m * n * n then return "bad-op"
+      return outMat n n (povmSum n m (ten b n n))
+  | ["kraus", N, dout, din, z, minv] => Id.run do
+      let some N := N.toNat? | return "bad-op"
+      let some dout := dout.toNat? | return "bad-op"
+      let some din := din.toNat? | return "bad-op"
+      let some z := parseCArr? z | return "bad-op"
+      let some minv := parseCArr? minv | return "bad-op"
+      if z.size ≠ N * dout * din || minv.size ≠ din * din then return "bad-op"
+      let Z := ten z dout din
+      return ",".intercalate ((List.range N).map fun s => outMat dout din (krausOut din Z (mat minv din) s))
+  | ["herm", n, evc, evl] => Id.run do
+      let some n := n.toNat? | return "bad-op"
+      let some evc := parseCArr? evc | return "bad-op"
+      let some evl := parseCArr? evl | return "bad-op"
+      if evc.size ≠ n * n || evl.size ≠ n then return "bad-op"
+      return outMat n n (hermEig n (mat evc n) (vec evl))
+  | ["choi", din, dout, r, g, evl, evc] => Id.run do
+      let some din := din.toNat? | return "bad-op"
+      let some dout := dout.toNat? | return "bad-op"
+      let some r := r.toNat? | return "bad-op"
+      let some g := parseCArr? g | return "bad-op"
+      let some evl := parseCArr? evl | return "bad-op"
+      let some evc := parseCArr? evc | return "bad-op"
+      let N0 := din * dout
+      if g.size ≠ N0 * r || evl.size ≠ din || evc.size ≠ din * din then return "bad-op"
+      let T := memo din din (invSqrtMat din (mat evc din) (vec evl))
+      return outMat N0 N0 (choiOut din dout r (mat g r) T)
+  | ["choipt", din, dout, r, g] => Id.run do
+      let some din := din.toNat? | return "bad-op"
+      let some dout := dout.toNat? | return "bad-op"
+      let some r := r.toNat? | return "bad-op"
+      let some g := parseCArr? g | return "bad-op"
+      if g.size ≠ din * dout * r then return "bad-op"
+      return outMat din din (choiPT din dout r (mat g r))
+  | ["adj", n, d] => Id.run do
+      let some n := n.toNat? | return "bad-op"
+      let some d := parseNatList? d | return "bad-op"
+      if d.length ≠ n * n then return "bad-op"
+      let D := fun i j => d.getD (i * n + j) 0
+      return natListStr ((List.range n).flatMap fun i => (List.range n).map fun j => adjacency D i j)
+  | _ => "bad-op"
+
 def handle (args : List String) : String :=
   match args with
+  | "nz" :: rest => handleNz rest
   | ["count"] => toString progs.length
   | ["closed", name] =>
       match findIdx? name with
